@@ -107,6 +107,47 @@ fn observe_second_list(out: &mut Out, rng: &mut R, tx: &Transaction, ps: &[TxOut
     }
 }
 
+/// A query that FAILS must leave the cache as it found it: taproot queries with an `All` list of the wrong length
+/// (one short, one long, empty) are refused, and every later query with the right list answers as a fresh cache.
+/// (The history language of the K line has one prevout list per history, so this stream is direct-check only.)
+fn failed_query_leaves_cache_intact(out: &mut Out, rng: &mut R, tx: &Transaction, ps: &[TxOut], genesis: &[u8; 32]) {
+    if ps.len() != tx.input.len() || tx.input.is_empty() {
+        return;
+    }
+    let g = BlockHash::from_byte_array(*genesis);
+    let wrong: Vec<TxOut> = match rng.gen_range(0..3) {
+        0 => ps[..ps.len() - 1].to_vec(),
+        1 => { let mut p = ps.to_vec(); p.push(gen::txout(rng, false)); p }
+        _ => { let mut p: Vec<TxOut> = ps.iter().map(|_| gen::txout(rng, false)).collect(); p.push(gen::txout(rng, false)); p }
+    };
+    let nin = tx.input.len();
+    let idx = rng.gen_range(0..nin);
+    let bad_ty = SCHNORR_TYPES[rng.gen_range(0..SCHNORR_TYPES.len())];
+    let bad = Q::TK { idx, ty: bad_ty, pv: Pv::All };
+    let mut t = tx.clone();
+    let mut cache = SighashCache::new(&mut t);
+    // optionally something valid first (legacy / segwit only: they do not touch the taproot slot)
+    if rng.gen_bool(0.3) {
+        let q0 = Q::S { idx: rng.gen_range(0..nin), ty: ECDSA_TYPES[rng.gen_range(0..6)], script: gen::script(rng), value: gen::value(rng) };
+        let _ = c03::run_q(&mut cache, ps, g, &q0);
+    }
+    let r_bad = c03::run_q(&mut cache, &wrong, g, &bad);
+    let f_bad = c03::fresh(tx, &wrong, g, &bad);
+    out.s("failed_query_answers_as_fresh", r_bad == f_bad, || format!("wrong-length All list ({} for {} inputs), type {:?}: cache {} fresh {}", wrong.len(), nin, bad_ty, r_bad, f_bad));
+    out.count(&format!("failed_first.{}", if r_bad.len() == 64 { "digest" } else { r_bad.as_str() }));
+    for _ in 0..4 {
+        let q = match rng.gen_range(0..4) {
+            0 => Q::TK { idx: rng.gen_range(0..nin), ty: SCHNORR_TYPES[rng.gen_range(0..SCHNORR_TYPES.len())], pv: Pv::All },
+            1 => Q::TG { idx: rng.gen_range(0..nin), ty: SCHNORR_TYPES[rng.gen_range(0..SCHNORR_TYPES.len())], pv: Pv::All, annex: c03::gen_annex(rng).filter(|a| a.first() == Some(&0x50)), leaf: c03::gen_leaf(rng, true), codesep: rng.gen() },
+            2 => Q::S { idx: rng.gen_range(0..nin), ty: ECDSA_TYPES[rng.gen_range(0..6)], script: gen::script(rng), value: gen::value(rng) },
+            _ => c03::gen_query(rng, tx),
+        };
+        let r = c03::run_q(&mut cache, ps, g, &q);
+        let f = c03::fresh(tx, ps, g, &q);
+        out.s("query_after_failed_query_equals_fresh", r == f, || format!("after a refused {:?} query with a wrong-length All list ({} for {} inputs): {} got {} fresh {} ; {}", bad_ty, wrong.len(), nin, c03::q_str(&q), r, f, seq_line(tx, ps, genesis, &[q.clone()])));
+    }
+}
+
 fn gen_seq(rng: &mut R, tx: &Transaction, n: usize) -> Vec<Q> {
     let mut qs = vec![];
     // a few queries that get repeated later
@@ -169,5 +210,6 @@ pub fn run(rng: &mut R, out: &mut Out) {
         let genesis = gen::arr32(rng);
         one_vs_all(out, rng, &tx, &ps, &genesis);
         observe_second_list(out, rng, &tx, &ps, &genesis);
+        failed_query_leaves_cache_intact(out, rng, &tx, &ps, &genesis);
     }
 }
